@@ -10,7 +10,7 @@ from ..strat import uni, logu, pos
 
 META = dict(
     technique='Hypothesis over an enumerable catalogue of documented restrictions (violating, boundary and just-inside values) audited against an AST walk of every '
-              '"raise ValueError" site, over out-of-domain requests, and over the union of the valid-input recipes for finiteness',
+              '"raise ValueError" site, over out-of-domain requests, and over the union of the valid-input recipes for finiteness; coverage-guided supplement: the same strategy and oracle driven by atheris/libFuzzer through Hypothesis fuzz_one_input (obligations *-atheris)',
     rule='cases = (catalogue entry: solver class, valid base keywords, one violated restriction with a generated violating value; or an out-of-domain time/position request; '
          'or a valid in-domain case from the recipes of the other properties); oracle = violating input raises ValueError at construction (at call time only where the '
          'documentation places the check there), an out-of-domain request raises or returns only NaN - never finite numbers -, a valid request returns no NaN/inf and raises nothing; '
